@@ -18,7 +18,7 @@ func TestProp(t *testing.T) {
 	r.Assume("reference input coercion (harness/internal/inputref, written from spec §3 input coercion and §6.1.2) is the oracle; it is validated on the spec's own coercion tables and re-checks the generator's coercible-by-construction claim (disagreements are discarded and counted)",
 		"accepted = at least one request reached the fake subgraph; rejected = Execute returned an error (or wrote errors) before any subgraph request",
 		"Int given an integral number spelled with fraction/exponent (1.0, 1e2) is not generated (gray zone)")
-	r.RequireLabel("agree:accept", "agree:reject", "raw:agree", "msg:variable-named", "msg:path-compatible", "msg:sentinels-checked",
+	r.RequireLabel("agree:accept", "agree:reject", "raw:agree", "multi-operation:2", "multi-operation:3", "msg:variable-named", "msg:path-compatible", "msg:sentinels-checked",
 		"fault:null-in-nonnull", "fault:missing-required-field", "fault:unknown-field", "fault:wrong-kind", "fault:bad-enum-value", "fault:oneof-count", "fault:missing-variable")
 	r.Regress(dispatch())
 	r.RunProbes(probes())
@@ -91,6 +91,8 @@ func probes() pbt.Probes {
 		fNullDflt: probeOf(fNullDflt, Case{Schema: probeSchema, Decls: []ir.VarDecl{{Name: "v", Type: "[Int!]", Default: "null"}}, Query: "query($v: [Int!] = null){ fIntsR(v: $v) }", VarsForm: "object", Vars: "{}", Break: "probe"}),
 		fSingle: probeOf(fSingle, probeCase("fSing", "Sing", `{"v":{}}`, "object"),
 			Case{Schema: probeSchema, Decls: []ir.VarDecl{{Name: "v", Type: "[[Int]]", Default: "[1]"}}, Query: "query($v: [[Int]] = [1]){ fLL(v: $v) }", VarsForm: "object", Vars: "{}", Break: "probe"}),
+		fCoerceOp: probeOf(fCoerceOp, Case{Schema: probeSchema, Decls: []ir.VarDecl{{Name: "v", Type: "[Int]"}}, OperationName: "Q",
+			Query: "query D0 { fInt } query Q($v: [Int]){ fIntsR(v: $v) }", VarsForm: "object", Vars: `{"v":1}`, Break: "probe"}),
 		fEnumList: probeOf(fEnumList, probeCase("fEs", "[E]", `{"v":[{}]}`, "object")),
 		fNoPath: probeOf(fNoPath, probeCase("fIn", "In", `{"v":{"a":1,"c":{}}}`, "object"), probeCase("fIn", "In", `{"v":{"a":1,"c":{"a":2,"c":"zq5x8k2m"}}}`, "object"),
 			probeCase("fIntsR", "[Int!]", `{"v":[null]}`, "object")),
